@@ -12,6 +12,7 @@ from __future__ import annotations
 import json
 import re
 import warnings
+from urllib.parse import unquote
 
 from harness import core
 from harness.core import cZ, cbool, clist, copt, cstr, ctuple, pstr
@@ -496,6 +497,352 @@ def stage_rewrite_search(chk, rewritten, per_case):
     return {"strings_tried": tried, "failing": len(failing), "failing_by_region": by_region}
 
 
+
+# ----------------------------------------------------------------------------------------
+def stage_kernel(chk, n):
+    """_build_size and _distribute_length_constraints called directly vs the model functions."""
+    from schemathesis.specs.openapi import patterns
+
+    rng = chk.rng
+
+    def rb():
+        return rng.choice([0, 0, 1, 1, 2, 3, 5, 8, 13, MAXREPEAT])
+
+    exprs, impls, cases = [], [], []
+    for _ in range(n // 2):
+        lo, hi = rb(), rb()
+        mn = rng.choice([None, 0, 1, 2, 4, 7, 20])
+        mx = rng.choice([None, 0, 1, 3, 6, 9, 30, MAXREPEAT])
+        cases.append(("build_size", lo, hi, mn, mx))
+        impls.append(list(patterns._build_size(lo, hi, mn, mx)))
+        exprs.append(f"(let '(a, b) := build_size {cZ(lo)} {cZ(hi)} {c_optz(mn)} {c_optz(mx)} in Some [(a, b)])")
+    for _ in range(n - n // 2):
+        k = rng.randint(1, 4)
+        bounds = []
+        for _ in range(k):
+            lo = rng.choice([0, 0, 1, 1, 2, 3])
+            hi = rng.choice([lo, lo + 1, lo + 3, 9, MAXREPEAT, MAXREPEAT])
+            bounds.append((lo, max(lo, hi)))
+        mn = rng.choice([None, 0, 1, 2, 3, 5, 8, 12])
+        mx = rng.choice([None, 0, 1, 2, 3, 5, 8, 12, 30])
+        if rng.random() < 0.3 and mn is not None:
+            mx = mn
+        if mn is None and mx is None:
+            mx = 4
+        cases.append(("distribute", bounds, mn, mx))
+        r = patterns._distribute_length_constraints(list(bounds), mn, mx)
+        impls.append(None if r is None else [list(x) for x in r])
+        cb = clist([ctuple(cZ(a), cZ(b)) for a, b in bounds], "(Z * Z)")
+        exprs.append(f"distribute {cb} {c_optz(mn)} {c_optz(mx)}")
+    model = core.coq_eval(IMPORTS, exprs)
+    agree = 0
+    for case, impl, mv in zip(cases, impls, model):
+        m = core.popt(mv)
+        m = None if m is None else [list(x) for x in m]
+        if case[0] == "build_size" and m is not None:
+            m = list(m[0])
+        chk.seen({"kernel": case}, True)
+        chk.count("kernel:" + case[0])
+        if m != impl:
+            chk.disagree(f"patterns._{'build_size' if case[0] == 'build_size' else 'distribute_length_constraints'} vs model", case, impl, m)
+        else:
+            agree += 1
+    return {"cases": len(cases), "agree": agree}
+
+
+def stage_forbid(chk, n):
+    """to_json_schema on object schemas with readOnly properties: the not.required list it writes, and the Draft 4
+    verdict on objects with given keys, vs forbid_valid; sends_no_readonly evaluated as the OpenAPI meaning."""
+    import jsonschema
+
+    from schemathesis.specs.openapi.converter import to_json_schema
+
+    rng = chk.rng
+    names_pool = ["a", "b", "c", "d", "é"]
+    cases, exprs = [], []
+    for _ in range(n):
+        props = {}
+        for name in rng.sample(names_pool, rng.randint(1, 4)):
+            props[name] = {"type": "string"}
+            if rng.random() < 0.5:
+                props[name]["readOnly"] = True
+        ro = [k for k, v in props.items() if v.get("readOnly")]
+        if not ro:
+            continue
+        required = [k for k in props if rng.random() < 0.4]
+        schema = {"type": "object", "properties": props}
+        if required:
+            schema["required"] = required
+        keys = rng.sample(names_pool, rng.randint(0, 4))
+        cases.append((schema, ro, keys))
+        exprs.append(
+            f"(forbid_valid {clist([cstr(x) for x in ro], 'str')} {clist([cstr(k) for k in keys], 'str')}, "
+            f"sends_no_readonly {clist([cstr(x) for x in ro], 'str')} {clist([cstr(k) for k in keys], 'str')})"
+        )
+    model = core.coq_eval(IMPORTS, exprs)
+    agree = 0
+    leaks = 0
+    for (schema, ro, keys), (m_valid, m_clean) in zip(cases, model):
+        conv = to_json_schema(schema, nullable_name="nullable")
+        case = {"schema": schema, "keys": keys}
+        chk.seen({"forbid": case}, len(ro) > 1)
+        written = sorted((conv.get("not") or {}).get("required", []))
+        if written != sorted(ro) or any(k in conv.get("properties", {}) for k in ro) or any(k in conv.get("required", []) for k in ro):
+            chk.disagree("to_json_schema readOnly rewriting (not.required / properties / required)", case, conv, sorted(ro))
+            continue
+        obj = {k: "v" for k in keys}
+        only_not = {"not": conv["not"]}
+        real_valid = jsonschema.Draft4Validator(only_not).is_valid(obj)
+        if real_valid != bool(m_valid):
+            chk.disagree("Draft4 verdict of not.required vs forbid_valid", case, real_valid, bool(m_valid))
+            continue
+        agree += 1
+        if m_valid and not m_clean:
+            leaks += 1
+            chk.fail("converted request schema accepts an object that carries a readOnly property", {"schema": schema, "value": obj, "read_only": ro}, region="readonly_multiple")
+    return {"cases": len(cases), "agree": agree, "objects_with_readonly_accepted": leaks}
+
+
+def satisfiable_sample(rng, ast, p, mn, mx):
+    for _ in range(12):
+        s = sample_match(rng, ast)
+        if re_search(p, s) and (mn is None or len(s) >= mn) and (mx is None or len(s) <= mx):
+            return s
+    return None
+
+
+def string_level_region(p: str) -> str:
+    return "lazy_quantifier_multi" if lazy_in_multi(p) else "escaped_metachar_slicing"
+
+
+def stage_string_level(chk, n):
+    """Patterns OUTSIDE the concrete-syntax fragment of the AST model (escaped metacharacters, lazy quantifiers / (?...) groups on
+    the multi-quantifier path): implementation only, property oracle, failures attributed to the two string-level findings."""
+    rng = chk.rng
+    stats = {"cases": 0, "rewritten": 0, "crashes_on_satisfiable": 0, "violations": 0}
+    for _ in range(n):
+        p, ast, mn, mx = gen_case(rng, plain=False)
+        stats["cases"] += 1
+        impl = impl_update(p, mn, mx)
+        case = {"pattern": p, "minLength": mn, "maxLength": mx}
+        chk.seen({"string_level": case}, impl[0] != "ok" or impl[1] != p)
+        if impl[0] == "raises":
+            s = satisfiable_sample(rng, ast, p, mn, mx)
+            if s is not None:
+                stats["crashes_on_satisfiable"] += 1
+                chk.fail(f"update_quantifier raises {impl[1]} on a satisfiable pattern/length combination", {**case, "conforming": s}, impl[1], region=string_level_region(p))
+            continue
+        out = impl[1]
+        if out == p:
+            continue
+        stats["rewritten"] += 1
+        try:
+            out_ast = to_ast(out)
+        except (Unsupported, re.error):
+            continue
+        for _ in range(6):
+            s = mutate(rng, sample_match(rng, out_ast))
+            bad = rewrite_violation(p, mn, mx, out, s) if len(s) <= 80 else None
+            if bad:
+                stats["violations"] += 1
+                chk.fail("value generated for the rewritten pattern violates the original keywords: " + "; ".join(bad), {**case, "rewritten": out, "string": s}, bad, region=string_level_region(p))
+                break
+    return stats
+
+
+# ----------------------------------------------------------------------------------------
+# End to end: documents -> as_strategy() positive draws -> python-jsonschema against an independent conversion
+# ----------------------------------------------------------------------------------------
+E2E_PATTERNS = ["^[a-z]+$", "^[a-z]{2,}\\Z", "\\A\\d+\\Z", "^[a-z]$", "[a-z]", "^(ab)+$", "^a+b*$", "^ab*c*$", "\\A[a-f0-9]{2,8}\\Z", "^\\w+$", "^x[0-9]*\\Z", "\\Aa+?b+\\Z"]
+
+
+def gen_string_schema(rng, for_header=False):
+    sch = {"type": "string"}
+    k = rng.random()
+    if k < 0.7:
+        sch["pattern"] = rng.choice(E2E_PATTERNS)
+    if rng.random() < 0.6:
+        sch["maxLength"] = rng.choice([1, 2, 3, 5, 8])
+    if rng.random() < 0.4:
+        sch["minLength"] = rng.choice([0, 1, 2, 3])
+    if "maxLength" in sch and sch.get("minLength", 0) > sch["maxLength"]:
+        del sch["minLength"]
+    if k >= 0.9:
+        sch = {"type": "string", "enum": ["a", "bc", "d-e"]}
+    return sch
+
+
+def gen_document(rng):
+    params = []
+    path = "/r"
+    if rng.random() < 0.6:
+        path = "/r/{id}"
+        params.append({"name": "id", "in": "path", "required": True, "schema": gen_string_schema(rng)})
+    for loc, name in (("query", "q"), ("header", "X-A"), ("cookie", "c"), ("query", "r")):
+        if rng.random() < 0.5:
+            params.append({"name": name, "in": loc, "required": rng.random() < 0.6, "schema": gen_string_schema(rng)})
+    op = {"parameters": params, "responses": {"200": {"description": "ok"}}}
+    if rng.random() < 0.7:
+        props = {}
+        for name in rng.sample(["a", "b", "c", "d"], rng.randint(1, 4)):
+            sub = gen_string_schema(rng) if rng.random() < 0.6 else {"type": rng.choice(["integer", "boolean"])}
+            if rng.random() < 0.3:
+                sub["nullable"] = True
+            if rng.random() < 0.35:
+                sub["readOnly"] = True
+            props[name] = sub
+        body = {"type": "object", "properties": props, "required": [k for k in props if rng.random() < 0.5]}
+        if rng.random() < 0.6:
+            body["additionalProperties"] = False
+        if not body["required"]:
+            del body["required"]
+        op["requestBody"] = {"required": True, "content": {"application/json": {"schema": body}}}
+    return {"openapi": "3.0.2", "info": {"title": "t", "version": "1"}, "paths": {path: {"post": op}}}, path
+
+
+def independent_convert(sch):
+    """The harness' own OpenAPI 3.0 -> Draft 4 reading of a schema (request direction)."""
+    if not isinstance(sch, dict):
+        return sch
+    out = {}
+    for k, v in sch.items():
+        if k in ("nullable", "readOnly"):
+            continue
+        if k == "properties":
+            out[k] = {n: independent_convert(s) for n, s in v.items() if not s.get("readOnly")}
+        elif k == "required":
+            ro = {n for n, s in sch.get("properties", {}).items() if s.get("readOnly")}
+            out[k] = [n for n in v if n not in ro]
+        elif k == "items":
+            out[k] = independent_convert(v)
+        else:
+            out[k] = v
+    if out.get("required") == []:
+        del out["required"]
+    ro = [n for n, s in sch.get("properties", {}).items() if isinstance(s, dict) and s.get("readOnly")]
+    if ro:
+        out["not"] = {"anyOf": [{"required": [n]} for n in ro]}
+    if sch.get("nullable") is True:
+        return {"anyOf": [out, {"type": "null"}]}
+    return out
+
+
+def draw_cases(operation, seed_value, n):
+    from hypothesis import HealthCheck, Phase, given, seed, settings
+
+    out = []
+
+    @seed(seed_value)
+    @settings(max_examples=n, database=None, derandomize=False, deadline=None, suppress_health_check=list(HealthCheck), phases=[Phase.generate])
+    @given(operation.as_strategy())
+    def collect(case):
+        out.append(case)
+
+    collect()
+    return out
+
+
+def string_failure_region(sch, value, pending):
+    """Why a generated string violates pattern/minLength/maxLength: queued for classification by the Coq region predicates."""
+    p = sch.get("pattern")
+    if not p or not isinstance(value, str):
+        return None
+    if not plain_syntax(p):
+        return string_level_region(p)
+    pending.append((p, sch.get("minLength"), sch.get("maxLength"), value))
+    return "PENDING"
+
+
+def stage_end_to_end(chk, n_docs):
+    import jsonschema
+    import schemathesis
+    from hypothesis.errors import Unsatisfiable
+
+    from schemathesis.core import NOT_SET
+
+    rng = chk.rng
+    stats = {"documents": 0, "draws": 0, "parts_checked": 0, "failing_parts": 0, "unsatisfiable": 0, "by_region": {}}
+    pending_fail = []  # (what, case, schema, value, region or PENDING + index)
+    pending = []
+    for _ in range(n_docs):
+        raw, path = gen_document(rng)
+        try:
+            op = schemathesis.openapi.from_dict(raw)[path]["POST"]
+            cases = draw_cases(op, rng.getrandbits(32), 8)
+        except Unsatisfiable:
+            stats["unsatisfiable"] += 1
+            continue
+        except Exception as exc:  # noqa: BLE001
+            chk.count(f"e2e_error:{type(exc).__name__}")
+            params = raw["paths"][path]["post"]["parameters"]
+            region = None
+            for prm in params:
+                pat = prm["schema"].get("pattern")
+                if pat and not plain_syntax(pat):
+                    region = string_level_region(pat)
+            chk.fail(f"operation cannot produce positive cases: {type(exc).__name__}", raw, str(exc)[:200], region=region)
+            continue
+        stats["documents"] += 1
+        opdef = raw["paths"][path]["post"]
+        for case in cases:
+            stats["draws"] += 1
+            if case.meta is not None and case.meta.generation.mode.value != "positive":
+                chk.fail("positive strategy produced a case not labelled positive", raw, str(case.meta.generation.mode))
+            containers = {"path": case.path_parameters or {}, "query": case.query or {}, "header": case.headers or {}, "cookie": case.cookies or {}}
+            for prm in opdef["parameters"]:
+                cont = containers[prm["in"]]
+                present = prm["name"] in cont
+                if not present:
+                    if prm.get("required"):
+                        chk.fail("required parameter missing from a positive case", {"document": raw, "parameter": prm["name"]})
+                    continue
+                value = cont[prm["name"]]
+                if prm["in"] == "path" and isinstance(value, str):
+                    value = unquote(value)  # the path location percent-encodes inside the strategy (quote_all): read through that coercion
+                stats["parts_checked"] += 1
+                chk.seen({"e2e": [prm["schema"], value]}, True)
+                sch = independent_convert(prm["schema"])
+                if not jsonschema.Draft4Validator(sch).is_valid(value):
+                    stats["failing_parts"] += 1
+                    region = string_failure_region(prm["schema"], value, pending)
+                    pending_fail.append((f"{prm['in']} parameter {prm['name']} does not conform", {"schema": prm["schema"], "value": value, "in": prm["in"]}, region, len(pending) - 1))
+            if "requestBody" in opdef:
+                body_schema = opdef["requestBody"]["content"]["application/json"]["schema"]
+                body = case.body
+                if body is NOT_SET:
+                    chk.fail("required body missing from a positive case", {"document": raw})
+                    continue
+                stats["parts_checked"] += 1
+                chk.seen({"e2e_body": [body_schema, body]}, True)
+                errors = list(jsonschema.Draft4Validator(independent_convert(body_schema)).iter_errors(body))
+                if errors:
+                    stats["failing_parts"] += 1
+                    ro = [n for n, s in body_schema["properties"].items() if s.get("readOnly")]
+                    region = None
+                    idx = -1
+                    if isinstance(body, dict) and any(n in body for n in ro):
+                        region = "readonly_multiple" if len(ro) > 1 else None
+                    elif isinstance(body, dict):
+                        for name, sub in body_schema["properties"].items():
+                            if name in body and not jsonschema.Draft4Validator(independent_convert(sub)).is_valid(body[name]):
+                                region = string_failure_region(sub, body[name], pending)
+                                idx = len(pending) - 1
+                                break
+                    pending_fail.append(("request body does not conform: " + errors[0].message[:120], {"schema": body_schema, "value": body}, region, idx))
+    if pending:
+        exprs = []
+        for p, mn, mx, s in pending:
+            ast = c_seq(to_ast(p))
+            exprs.append(REGION_EXPR.format(p=ast, mn=c_optz(mn), mx=c_optz(mx), s=cstr(s)))
+        flags = core.coq_eval(IMPORTS, exprs)
+    for what, case, region, idx in pending_fail:
+        if region == "PENDING":
+            region = classify(flags[idx])
+        stats["by_region"][region or "NONE"] = stats["by_region"].get(region or "NONE", 0) + 1
+        chk.fail(what, case, None, region=region)
+    return stats
+
+
 # ----------------------------------------------------------------------------------------
 def witness_fails(w) -> bool:
     kind = w.get("kind")
@@ -579,13 +926,13 @@ def run(chk: core.Check):
                 pairs.append((pat, to_ast(pat), c["string"]))
     chk.stages["correspondence_matcher"] = stage_matcher(chk, pairs)
 
-    from harness.props import c01_convert as conv
-
-    chk.stages["correspondence_converter"] = conv.stage_converter(chk, 600 if quick else 8000)
+    chk.stages["correspondence_kernel"] = stage_kernel(chk, 1500 if quick else 20000)
+    chk.stages["correspondence_forbid_properties"] = stage_forbid(chk, 300 if quick else 4000)
 
     boost = 10 if chk.broken else 1
     chk.stages["search_rewriter"] = stage_rewrite_search(chk, rewritten, (6 if quick else 12) * boost)
-    chk.stages["search_end_to_end"] = conv.stage_end_to_end(chk, (60 if quick else 1200) * boost)
+    chk.stages["search_string_level"] = stage_string_level(chk, (400 if quick else 6000) * boost)
+    chk.stages["search_end_to_end"] = stage_end_to_end(chk, (40 if quick else 700) * boost)
 
     for f in chk.findings:
         chk.known(f, witness_fails(f["witness"]))
